@@ -1,4 +1,5 @@
 import os
+import shutil
 import zipfile
 
 import joblib
@@ -10,6 +11,32 @@ def folder_contains_mostly_zips(path):
     zips = [item for item in items if item.endswith(".zip")]
     contains_mostly_zips = len(zips) > 0 and len(zips) >= len(items) // 2
     return contains_mostly_zips, zips
+
+
+def delete_incomplete_copy(dst_path, start_copy_file):
+    # delete everything but the start_copy_file (which marks the folder as an incomplete automatic copy)
+    # if the process is killed while deleting, the remaining partial copy would otherwise look like a manual copy
+    for item in dst_path.iterdir():
+        if item.name == start_copy_file.name:
+            continue
+        if item.is_dir() and not item.is_symlink():
+            shutil.rmtree(item)
+        else:
+            item.unlink()
+
+
+def create_folder_with_start_copy_file(dst_path, start_copy_file):
+    # create folder and start_copy_file in a temporary sibling folder and move it into place with a single rename
+    # if the process is killed between creating the folder and creating the start_copy_file, the empty folder
+    # would otherwise look like a manual copy
+    dst_path.parent.mkdir(parents=True, exist_ok=True)
+    tmp_path = dst_path.with_name(f"{dst_path.name}.autocopy_tmp")
+    if tmp_path.exists():
+        shutil.rmtree(tmp_path)
+    tmp_path.mkdir()
+    with open(tmp_path / start_copy_file.name, "w") as f:
+        f.write("this file indicates that an attempt to copy the dataset automatically was started")
+    tmp_path.rename(dst_path)
 
 
 def unzip(src, dst):
